@@ -401,7 +401,7 @@ void large(long shard, long nshards, bool thorough) {
   vector<std::tuple<int, uint64_t, uint64_t>> cases;
   // second value 0: one update of that length; the marker length 1 stands for "two updates of 2^31+3 bytes each" (the low length word
   // wraps through accumulation - the carry into the high word - instead of through one oversized update)
-  if (!thorough) for (int a : quick_algos) { cases.push_back({a, (1ULL << 32) + 5, 0}); cases.push_back({a, 1, 0}); }
+  if (!thorough) { for (int a : quick_algos) { cases.push_back({a, (1ULL << 32) + 5, 0}); cases.push_back({a, 1, 0}); } cases.push_back({7, 1ULL << 32, 3}); /* one sponge (SHA-3) as well: its rates do not divide 2^32 */ }
   else for (int a : thorough_algos) {
     cases.push_back({a, (1ULL << 32) + 5, 0});
     cases.push_back({a, 1, 0});
